@@ -142,6 +142,76 @@ def record(run: Run, n_seeds: int, steps_budget: int) -> list[dict[str, Any]]:
     return evs
 
 
+def record_forced(run: Run) -> list[dict[str, Any]]:
+    """The refusals no real HMAC reaches: the HMAC output is dictated (hmac.new patched, as the library's own tests do)."""
+    import hmac as _hmac
+
+    from btclib.bip32 import bip32
+    from btclib.bip32.bip32 import BIP32KeyData
+    from btclib.curves import secp256k1, set_libsecp256k1_serving
+    from btclib.curves.curve import is_libsecp256k1_serving
+
+    class Forced:
+        def __init__(self, digest: bytes) -> None:
+            self._d = digest
+
+        def digest(self) -> bytes:
+            return self._d
+
+    evs: list[dict[str, Any]] = []
+    start = is_libsecp256k1_serving()
+    root = bip32.rootxprv_from_seed(bytes(range(1, 33)))
+    kd = BIP32KeyData.b58decode(root)
+    k = int.from_bytes(kd.key[1:], "big")
+    n = secp256k1.n
+    xpub = bip32.xpub_from_xprv(root)
+    real_new = _hmac.new
+    try:
+        for arm in ([True, False] if start else [False]):
+            if start:
+                set_libsecp256k1_serving(serving=arm)
+            tag = "bindings" if arm else "python"
+            for xkey, is_prv in ((root, True), (xpub, False)):
+                for index in (0, 5, H, H + 3):
+                    if not is_prv and index >= H:
+                        continue
+                    for il in (n, n + 1, 2**256 - 1, (n - k) % n if is_prv else 1, 1, n - 1):
+                        I = il.to_bytes(32, "big") + bytes(range(32))
+                        _hmac.new = lambda *a, I=I, **kw: Forced(I)   # type: ignore[assignment]
+                        try:
+                            out = _x(lambda: bip32.derive(xkey, [index]))
+                        finally:
+                            _hmac.new = real_new
+                        p = out if isinstance(out, str) and (out == "refused" or out.startswith("foreign")) else BIP32KeyData.b58decode(out).serialize(check_validity=False).hex()
+                        evs.append({"op": "derive_forced", "tag": tag, "fn": f"derive with a dictated hmac ({'prv' if is_prv else 'pub'}, {'hardened' if index >= H else 'unhardened'})",
+                                    "xkey": BIP32KeyData.b58decode(xkey).serialize(check_validity=False).hex(), "index": nat(index), "I": I.hex(), "out": p})
+    finally:
+        _hmac.new = real_new
+        if start:
+            set_libsecp256k1_serving(serving=start)
+    return evs
+
+
+def record_slip132(run: Run, n: int) -> list[dict[str, Any]]:
+    from btclib import slip132
+    from btclib.bip32 import bip32
+    from btclib.bip32.bip32 import BIP32KeyData
+
+    rnd = random.Random(run.seed + 132)
+    evs = []
+    for s in range(n):
+        version = bytes.fromhex("0488ade4" if s % 2 == 0 else "04358394")
+        root = bip32.rootxprv_from_seed(rnd.randbytes(32), version)
+        xpub = bip32.xpub_from_xprv(root)
+        for kind, fn in (("p2pkh", slip132.p2pkh_xkey), ("p2wpkh_p2sh", slip132.p2wpkh_p2sh_xkey), ("p2wpkh", slip132.p2wpkh_xkey)):
+            for xkey, path in ((root, [H + 49, H + (s % 2), H]), (root, [0, 7]), (xpub, [0, rnd.randrange(1000)]), (xpub, [1])):
+                out = _x(lambda: fn(xkey, path))
+                p = out if isinstance(out, str) and (out == "refused" or out.startswith("foreign")) else BIP32KeyData.b58decode(out).serialize(check_validity=False).hex()
+                evs.append({"op": "slip132", "fn": f"slip132.{kind}_xkey ({'prv' if xkey is root else 'pub'})", "kind": kind,
+                            "xkey": BIP32KeyData.b58decode(xkey).serialize(check_validity=False).hex(), "path": [nat(i) for i in path], "out": p})
+    return evs
+
+
 def record_bip85(run: Run, n: int) -> list[dict[str, Any]]:
     """BIP85: the child entropy is HMAC-SHA512("bip-entropy-from-k", derived private key)."""
     from btclib import bip85
@@ -175,6 +245,8 @@ def check(run: Run) -> None:
         raise tlc.TLCFailure(f"BIP32Model violates {v.name}:\n{v.text[:700]}")
     evs = record(run, 60 if thorough else 14, 1500 if thorough else 150)
     evs += record_bip85(run, 12 if thorough else 3)
+    evs += record_forced(run)
+    evs += record_slip132(run, 6 if thorough else 2)
     for e in evs:
         if isinstance(e["out"], str) and e["out"].startswith("foreign"):
             run.violation(f"bip32|{e['op']}|{e.get('fn', '')}|foreign", f"{e.get('fn', e['op'])} raised {e['out']}", {"event": e})
